@@ -116,6 +116,45 @@ def m_dumps(it, obj, *, default=None, indent=None, ensure_ascii=True, **kw):
     return JSText(tree_of(it, obj, default), indent, ascii=bool(it.unbase(ensure_ascii)) if it.concrete(it.unbase(ensure_ascii)) else True)
 
 
+class JSFragment:
+    """A piece of a JSON document that json.dump() had already written when something else wrote to the same file (a `default` hook that emits a line of its
+    own while the document is being encoded): neither a complete JSON document nor a line of its own."""
+
+    _n = 0
+
+    def __init__(self, what, tree):
+        self.what, self.tree = what, tree
+        JSFragment._n += 1
+        self.length = z3.Int(f"jsfrag!{JSFragment._n}")
+
+    def __repr__(self):
+        return f"<{self.what} a JSON document>"
+
+
+def m_dump(it, obj, fp, *, default=None, indent=None, ensure_ascii=True, **kw):
+    """json.dump(obj, fp): the document is written to fp chunk by chunk WHILE it is encoded; `default` is called when the encoder reaches the object (for the
+    top-level object: before the first chunk). What a `default` hook writes to fp in the middle lands in the middle of the document."""
+    note("json.dump", "streams the document to the file while encoding: text written to the same file by a `default` hook that runs in the middle of the encoding splits the document")
+    segs = getattr(fp, "segs", None)
+    if segs is None:
+        raise Unsupported("json.dump to a file object outside the file model")
+    top = obj
+    if default is not None and not (obj is None or isinstance(it.unbase(obj), (bool, int, float, str, list, tuple, dict, SBool, SInt, SStr))):
+        top = it.call(default, [obj], {})  # the top-level object is converted before anything is written
+    n0 = len(segs)
+    tree = tree_of(it, top, default)
+    asc = bool(it.unbase(ensure_ascii)) if it.concrete(it.unbase(ensure_ascii)) else True
+    if len(segs) != n0:
+        inner = segs[n0:]
+        del segs[n0:]
+        fp.write(JSFragment("the head of", tree))
+        segs.extend(inner)
+        fp.write(JSFragment("the tail of", tree))
+        return None
+    fp.write(JSText(tree, indent, ascii=asc))
+    return None
+
+
 def untree(it, t, hook):
     k = t[0]
     if k == "leaf":
@@ -155,4 +194,5 @@ def m_loads(it, s, *, object_hook=None, **kw):
 
 def install(it):
     it.models[json.dumps] = m_dumps
+    it.models[json.dump] = m_dump
     it.models[json.loads] = m_loads
